@@ -19,7 +19,9 @@ What is modelled (each section names the Python it follows):
    batches of `--batch-size`, accumulation, and the printed figure — both as pinned (the
    per-utterance quotient is always evaluated) and as repaired.
 5. **Subsetting** — `subset_torch_spect_data_dir`: the orderings and `all_utt_ids[:n]`, the
-   per-subdirectory copy.
+   per-subdirectory copy; §5b the whole command on a source tree (`subsetCmd`: any tree, consistent
+   SpectDataSet directory or not) and the utterances a `SpectDataSet` over the tree lists
+   (`dataSetIds`, what the chunk and info commands walk).
 6. **Length moments / MVN statistics** — `(s, ss, c)` per file, summed, and
    `_do_mv_printing`; the grouped accumulation of `compute_mvn_stats_for_torch_feat_data_dir`.
 7. **Transcript directories** — trn -> token dir -> trn at the level of the commands (file
@@ -373,6 +375,63 @@ def copyCmd {σ κ : Type} [DecidableEq σ] [DecidableEq κ] (linkMode : Bool)
   copyRun linkMode [] (copyTargets subdirs src names)
 
 end Subset
+
+/-! ## 5b. The subset command on a whole source tree (any tree, consistent or not) -/
+section SubsetDir
+variable {σ α : Type} [DecidableEq σ] [DecidableEq α]
+
+/-- `os.listdir(src/sub)`: the names of the files `tree` has in the sub-directory `sub`. `tree`
+lists every `(sub-directory, file name)` of `src` — ANY files: names that do not match the
+prefix / suffix, utterances present in only some of the sub-directories, sub-directories the
+command does not know. -/
+def filesOf (sub : σ) (tree : List (σ × List α)) : List (List α) :=
+  (tree.filter (fun e => e.1 == sub)).map (·.2)
+
+/-- `_DirectoryDataset(feat_dir, file_prefix, file_suffix).utt_ids` (before sorting): the
+utterances of the data set are those of `feat/` ("Available utterances to extract are
+determined by the contents of the feat/ subdirectory"). -/
+def featIds (p s : List α) (featSub : σ) (tree : List (σ × List α)) : List (List α) :=
+  listedUtts p s (filesOf featSub tree)
+
+/-- `(size(0), utt id)` of every utterance of `feat/`: the `DataLoader` loads
+`prefix + utt + suffix` (a name that only matches because prefix and suffix overlap has no such
+file: `FileNotFoundError`, known finding, not modelled — `len` is total). -/
+def subsetAvail (p s : List α) (featSub : σ) (len : List α → Nat) (tree : List (σ × List α)) :
+    List (Nat × List α) :=
+  (featIds p s featSub tree).map (fun u => (len (fileName p s u), u))
+
+/-- `utt_ids` of the command on the tree. -/
+def subsetSel (le : List α → List α → Bool) (p s : List α) (featSub : σ) (len : List α → Nat)
+    (tree : List (σ × List α)) (c : Crit (List α)) : List (List α) :=
+  subsetSelect le (subsetAvail p s featSub len tree) c
+
+/-- `subset_torch_spect_data_dir src dest` as a whole: list `feat/`, order / filter the ids,
+`basenames = (prefix + x + suffix for x in utt_ids)`, then the copy loop over `feat_subdir` and
+those of `ali_subdir`, `ref_subdir` that are directories of `src` (`otherSubs`; with `--only`
+there are none and `featSub` is `src` itself). The files of `dest`, or `FileExistsError`. -/
+def subsetCmd (le : List α → List α → Bool) (p s : List α) (featSub : σ) (otherSubs : List σ)
+    (len : List α → Nat) (tree : List (σ × List α)) (c : Crit (List α)) (linkMode : Bool) :
+    Except Unit (List (σ × List α)) :=
+  copyCmd linkMode (featSub :: otherSubs) tree
+    ((subsetSel le p s featSub len tree c).map (fileName p s))
+
+/-- `SpectDataSet.has_ali` / `has_ref`: a sub-directory counts only if it holds at least one
+selected name (`os.path.isdir(...)` and `any(x.startswith(prefix) and x.endswith(suffix) ...)`; an
+`ali/` without a matching file is "no alignments", not "no utterance has an alignment").
+`otherSubs` = those of `ali/`, `ref/` that are directories of `src`. -/
+def dataSetSubs (p s : List α) (otherSubs : List σ) (tree : List (σ × List α)) : List σ :=
+  otherSubs.filter (fun sub => (filesOf sub tree).any (selects p s))
+
+/-- `SpectDataSet.find_utt_ids` (what `chunk-torch-spect-data-dir` and
+`get-torch-spect-data-dir-info` walk): the utterances of `feat/` that every one of `ali/`, `ref/`
+that counts (`dataSetSubs`) has as well — a set in the code (`utt_ids &= ali_utt_ids`, then
+sorted), here the ids of `feat/` in listing order. -/
+def dataSetIds (p s : List α) (featSub : σ) (otherSubs : List σ) (tree : List (σ × List α)) :
+    List (List α) :=
+  (featIds p s featSub tree).filter
+    (fun u => (dataSetSubs p s otherSubs tree).all (fun sub => (featIds p s sub tree).contains u))
+
+end SubsetDir
 
 /-! ## 6. Moments -/
 section Moments
